@@ -72,7 +72,11 @@ func (l vLine) render() string {
 		if sep == "" {
 			sep = ": "
 		}
-		return l.L.Indent + l.L.Dash + name + sep + l.Num + l.L.Trail + eol
+		num := l.Num
+		if strings.HasSuffix(sep, "\"") {
+			num += "\"" // the quantity in quotes
+		}
+		return l.L.Indent + l.L.Dash + name + sep + num + l.L.Trail + eol
 	case vkNote:
 		return l.L.Indent + "# " + l.Name + ": " + l.Text + l.L.Trail + eol
 	case vkTNote:
@@ -178,8 +182,8 @@ var (
 	vEdgeCJK     = []rune("米飯麺茶水魚肉卵豆腐한글かな")
 	vEdgeLatin   = []rune("éèêëàâäôöùûüçñßøåÉÖÀÐÿµªºþ")
 	vEdgeOther   = []rune("אבגשעبتثकखगกขด")
-	vInnerWild   = []string{" ", "  ", "/", ".", "_", "'", "(", ")", "%", "+", "&", ",", "\"", ":", "-", "#", "=", ", ", ": ", " - ", " #", "\\", "\": ", "\\ ", "…"}
-	vInnerTame   = []string{" ", "/", ".", "_", "-", "'", "&", "+", "%", "(", ")", ",", "<", ">", ";", "…", "  "}
+	vInnerWild   = []string{" ", "  ", "/", ".", "_", "'", "(", ")", "%", "+", "&", ",", "\"", ":", "-", "#", "=", ", ", ": ", " - ", " #", "\\", "\": ", "\\ ", "…", "’", "‘", " 2 #", " 12 #"}
+	vInnerTame   = []string{" ", "/", ".", "_", "-", "'", "&", "+", "%", "(", ")", ",", "<", ">", ";", "…", "  ", "’", "‘"}
 	vEdgeClasses = [][]rune{vEdgeASCII, vEdgeASCII, vEdgeASCII, vEdgeDigits, vEdgeCyr, vEdgeGreek, vEdgeCJK, vEdgeLatin, vEdgeOther, vEdgeLowByte()}
 )
 
@@ -435,7 +439,7 @@ func vGenNumDecimal(t *rapid.T, label string) string {
 var (
 	vIndents = []string{"  ", "  ", "  ", "    ", " ", "\t", "\t  ", "  \t"}
 	vDashes  = []string{"", "", "", "- ", "- ", "-\t", "-  "}
-	vSeps    = []string{": ", ": ", ": ", ":\t", ":   ", ": \t"}
+	vSeps    = []string{": ", ": ", ": ", ": ", ":\t", ":   ", ": \t", " :", " : ", ": \""} // " :" glues the colon to the number; `: "` quotes the number
 	vTrails  = []string{"", "", "", " ", "  ", "\t"}
 )
 
@@ -527,7 +531,7 @@ func vGenFillerLine(t *rapid.T, o vLayoutOpts, label string) vLine {
 	if rapid.Bool().Draw(t, label+".comment") {
 		return vLine{Kind: vkComment, Text: vCommentTexts[rapid.IntRange(0, len(vCommentTexts)-1).Draw(t, label+".ct")], L: vLayout{EOL: eol}}
 	}
-	return vLine{Kind: vkBlank, Text: []string{"", "", "  ", "\t", " "}[rapid.IntRange(0, 4).Draw(t, label+".bt")], L: vLayout{EOL: eol}}
+	return vLine{Kind: vkBlank, Text: []string{"", "", "  ", "\t", " ", "---", "---", "  -"}[rapid.IntRange(0, 7).Draw(t, label+".bt")], L: vLayout{EOL: eol}} // a line of dashes reads as a blank line
 }
 
 // vDecorate inserts filler lines (blank lines, column-0 comments) and notes
